@@ -317,8 +317,24 @@ func runC16(c *Ctx) {
 	for _, s := range storesToField(m.fns, m.T, "prev") {
 		checkWriter(s, "store parser.prev")
 	}
+	// the look-ahead function, or a helper all of whose call sites are in it
+	inPeek := func(fn *ssa.Function) bool {
+		if fn == m.peek {
+			return true
+		}
+		if fn.Parent() != nil {
+			return false
+		}
+		calls := callsTo(m.fns, fn)
+		for _, ci := range calls {
+			if ci.Parent() != m.peek {
+				return false
+			}
+		}
+		return len(calls) > 0
+	}
 	for _, s := range m.stores("peeked") {
-		if s.fn == m.peek {
+		if inPeek(s.fn) {
 			if cst, ok := s.store.Val.(*ssa.Const); ok && cst.Value != nil && cst.Value.String() == "true" {
 				r1.OK("store parser.peeked=true in "+p.FuncName(s.fn), "look-ahead function")
 				continue
@@ -328,7 +344,7 @@ func runC16(c *Ctx) {
 	}
 	// peekToken only in PEEK
 	for _, s := range m.stores("peekToken") {
-		if s.fn != m.peek {
+		if !inPeek(s.fn) {
 			r1.Fail(s.store.Pos(), p.FuncName(s.fn), "store parser.peekToken", "the look-ahead slot is filled outside the look-ahead function")
 		}
 	}
